@@ -474,7 +474,8 @@ def reception(ctx):
     ind = Obj(types.SimpleNamespace, dict(data=SBytes([z3.BitVec(f"p{i}", 8) for i in range(4)])))
     I.call_function(DENMReceptionManagement.reception_callback, [o, ind])
     exc = cond_or(c for c, _ in I.raises)
-    vars_ = dict(lat=lat, lon=lon, alt=alt, station_id=sid, reference_time=ref, has_situation=has_sit, has_location=has_loc)
+    vars_ = dict(lat=lat, lon=lon, alt=alt, station_id=sid, reference_time=ref, has_situation=has_sit, has_location=has_loc,
+                 has_termination=z3.Bool("has_termination"), has_relevance_distance=z3.Bool("has_relevance_distance"), has_validity=z3.Bool("has_validity"))
     vars_.update(clock.vars())
 
     def replay(vals):
@@ -485,6 +486,18 @@ def reception(ctx):
                                      "referenceTime": vals["reference_time"], "eventPosition": {
                                          "latitude": vals["lat"], "longitude": vals["lon"], "positionConfidenceEllipse": {},
                                          "altitude": {"altitudeValue": vals["alt"], "altitudeConfidence": "unavailable"}}, "stationType": 5}}}
+        # the optional members the model chose
+        mg = d["denm"]["management"]
+        if vals.get("has_termination"):
+            mg["termination"] = "isCancellation"
+        if vals.get("has_relevance_distance"):
+            mg["relevanceDistance"] = "lessThan50m"
+        if vals.get("has_validity"):
+            mg["validityDuration"] = 600
+        if vals.get("has_situation"):
+            d["denm"]["situation"] = {"informationQuality": 1, "eventType": {"ccAndScc": ("reserved0", 0)}}
+        if vals.get("has_location"):
+            d["denm"]["location"] = {"traces": []}
         coder_.decode.return_value = d
         ldm_ = mock.Mock()
         m = DENMReceptionManagement(coder_, mock.Mock(), ldm_)
